@@ -309,6 +309,30 @@ package resolver
 //@ func dnskeyMaterialFP
 //@   modifies nothing
 //@
+//@ # "never published as a trust anchor again - not after restarts ... configuration that still lists it": the trust
+//@ # set a new process starts with is the configured keys MINUS every key the revocation records name (tombstone store;
+//@ # Revoked/Removed markers of the state file) and minus keys configured with the REVOKE bit; an unreadable tombstone
+//@ # store yields the empty set (fail closed). NewResolver publishes exactly that set.
+//@ func startupRootKeys
+//@   abstract
+//@   nosafety all pre
+//@   assert at return#1: len(result) == 0 && lastret("middleware/resolver.readTombstones", 1) != nil
+//@   assert at return#2: lastret("middleware/resolver.readTombstones", 1) == nil
+//@   assert at append#1: dyntype(rr, *dns.DNSKEY) ==> as(rr, *dns.DNSKEY).Flags & 128 == 0 && !revoked[lastret("middleware/resolver.dnskeyMaterialFP")]
+//@   assert at call middleware/resolver.dnskeyMaterialFP#2: arg0 == dnskey
+//@   assert at call middleware/resolver.dnskeyMaterialFP#1: arg0 == ta.DNSKey && (ta.State == StateRevoked || ta.State == StateRemoved)
+//@   assert at mapupdate#1: themap == revoked && value
+//@   assert at mapupdate#2: themap == revoked && value
+//@   # both kinds of marker count (a cover each: the branch that records the marker is reachable for that state)
+//@   possible at mapupdate#2: ta.State == StateRevoked
+//@   possible at mapupdate#2: ta.State == StateRemoved
+//@
+//@ func NewResolver
+//@   abstract
+//@   nosafety all pre
+//@   assert at call middleware/resolver.startupRootKeys#1: arg0 == cfg.Directory && arg1 == r.rootKeys
+//@   assert at store resolver.Resolver.rootKeys#3: value == lastret("middleware/resolver.startupRootKeys")
+//@
 //@ func dnskeyIdentity
 //@   abstract
 //@   nosafety all pre
